@@ -37,6 +37,8 @@ def check_plan(res, rng, plan, hows, tmp):
     n, dim = 90, (6 if kind != "bits" else 4)
     X, _ = api.gen_dataset(rng, metric, kind, n, dim)
     Q, _ = api.gen_dataset(rng, metric, kind, 15, dim)
+    import scipy.sparse as _sp
+    Q = _sp.vstack([Q, X[:6]]).tocsr() if _sp.issparse(X) else np.vstack([Q, X[:6]])      # some queries ARE indexed rows (distance 0 / tiny surrogates)
     kw = api.metric_kwds(metric, rng, dim)
     case = {"metric": metric, "kind": kind, "compressed": compressed, "tree_init": tree_init, "kwds": kw}
     key = "pickle:%s:%s" % (kind, metric)
@@ -136,9 +138,8 @@ def run(res, tier, seed, search):
     if tier == "quick" and not search:
         k = 3
         start = (seed * k) % len(PLANS)
-        plans = [PLANS[(start + i) % len(PLANS)] for i in range(k)]
-        if not any(p[1].startswith("csr") for p in plans):
-            plans[0] = PLANS[1]
+        fixed = [("cosine", "csr", False, True), ("bit_hamming", "bits", False, True)]     # sparse surrogate+correction; bit trees
+        plans = fixed + [pl for pl in [PLANS[(start + i) % len(PLANS)] for i in range(k)] if pl not in fixed][:2]
         hows = ["pickle%d" % pickle.HIGHEST_PROTOCOL, "joblib"]
     else:
         plans = PLANS
